@@ -93,6 +93,9 @@ def run(w: World, rep: Report):
                     continue          # argument validation, by design
             if isinstance(s, ast.Return) and (s.value is None or isinstance(s.value, ast.Constant)):
                 continue
+            if isinstance(s, ast.If) and not s.orelse and len(s.body) == 1 and isinstance(s.body[0], ast.Raise) and \
+                    body.index(s) < body.index(tr):
+                continue              # argument validation spelled `if not ok: raise TypeError(..)`
             if _stmt_may_raise(s):
                 outside.append(s)
         rep.check('C01.R2', 'functions.run_auth_scripts|outside-try', not outside, file=rel,
